@@ -194,3 +194,54 @@ _add(
     deciding={"any": {"expressions": 300, "expressions_mixing_operators": 100, "unfulfilled_results": 1000, "fulfilled_results": 1000, "async_evaluations": 500, "empty_expressions": 2}},
     headline=["expressions", "expressions_mixing_operators", "fulfilled_results", "unfulfilled_results", "async_evaluations"],
 )
+
+_add(
+    "C09",
+    shards=(2, 14),
+    timeout=(900, 5400),
+    title="AHB expressions: split and select",
+    rule=(
+        "AHB expressions of the three documented forms (1-4 modal-mark parts with optional trailing bare mark, one prefix-operator part, bare "
+        "indicator); EVERY spelling of every indicator in EVERY letter-case variant enumerated (alone, with condition, as later part, as trailing "
+        "mark) plus random structures with random spellings, whitespace around the condition expressions and valid condition expressions with "
+        "hints and format constraints; all 3^k assignments for k <= 3 (20 sampled above) incl. UNKNOWN, random format-constraint truth values. "
+        "Oracle: written parts vs. tree children (AHB parser and resolver), reference selection of the first fulfilled part, selected part's "
+        "outcome vs. evaluating its own condition expression alone (resolved and unresolved tree). distinct non-trivial = distinct expressions with >= 2 parts"
+    ),
+    deciding={"any": {"ahb_expressions": 300, "spelling_variants": 150, "form:bare": 20, "form:prefix": 50, "form:modal": 150, "later_part_selected": 100, "evaluations_with_unknown_part": 50}},
+    headline=["ahb_expressions", "spelling_variants", "later_part_selected", "evaluations_with_unknown_part"],
+)
+
+_add(
+    "C10",
+    shards=(2, 14),
+    timeout=(900, 5400),
+    title="package / time-condition resolution = bracketed substitution",
+    rule=(
+        "token-level generated condition and AHB expressions with packages (with/without repeatability, 5 package keys so that occurrences repeat "
+        "and neighbour each other), time conditions UB1-3 and plain keys, at root and nested positions; random package tables (expressions with "
+        "further packages and time conditions, unresolvable and missing keys); the package resolver's answers complete in every order for <= 4 "
+        "occurrences (DFS over the release decisions) and in sampled orders above. Oracle: the statement itself - canonical tree (token types "
+        "kept) of the resolved expression == tree of the textually substituted expression; flags separately; unknown package => "
+        "NotImplementedError. distinct non-trivial = distinct (expression, table) with >= 2 package occurrences or package + time condition"
+    ),
+    deciding={"any": {"cases": 200, "package_occurrences": 300, "time_condition_occurrences": 100, "unknown_package_runs": 20, "exactly_equal": 500, "distinct_release_orders": 100}},
+    headline=["cases", "package_occurrences", "time_condition_occurrences", "unknown_package_runs", "distinct_release_orders", "association_only_difference"],
+)
+
+_add(
+    "C11",
+    shards=(2, 14),
+    timeout=(900, 5400),
+    title="parsing is history independent",
+    rule=(
+        "random histories (30-200 operations) over a pool of 32 condition / AHB strings private to the history (seed-encoding whitespace suffix): "
+        "parse (cache hits dominate), in-place edits of previously returned trees at any depth (replace, remove, append, clear children, rename "
+        "node, reverse, append at the deepest node) each followed by a re-parse of the same string, sweeps over the whole pool, floods of > 1024 "
+        "distinct strings per parser (eviction) and a final re-parse of everything; monitors: every returned tree's canonical form (token types "
+        "kept) equals the form of the first parse; requirement evaluation of the pool's expressions before == after the history. distinct "
+        "non-trivial = distinct histories"
+    ),
+    deciding={"any": {"histories": 50, "mutations": 1000, "nested_mutations": 200, "hits_compared": 2000, "floods": 2, "evaluations_compared": 300}},
+    headline=["histories", "mutations", "nested_mutations", "hits_compared", "floods", "evaluations_compared", "shared_objects_seen"],
+)
